@@ -7,6 +7,7 @@ mod c04;
 mod c05;
 mod c06;
 mod c07;
+mod c08;
 mod c09;
 mod c10;
 mod c11;
@@ -36,6 +37,10 @@ fn main() {
     if args.len() < 2 {
         eprintln!("usage: gmc <Cnn> [--tier quick|thorough] [--replay path] | eval <rules> <data>");
         std::process::exit(2);
+    }
+    if args[1] == "--c08-worker" {
+        c08::worker_main();
+        return;
     }
     impl_::silence_panics();
     let id = args[1].as_str();
@@ -100,6 +105,7 @@ fn main() {
         "C05" => c05::run(&tier),
         "C06" => c06::run(&tier),
         "C07" => c07::run(&tier),
+        "C08" => c08::run(&tier),
         "C09" => c09::run(&tier),
         "C10" => c10::run(&tier),
         "C11" => c11::run(&tier),
